@@ -20,6 +20,8 @@ type Value struct {
 	addr  *Addr
 	clo   *cloInfo
 	iter  *iterInfo
+	// spec evaluation: reference to a struct embedded by value (loaded on use)
+	embedded bool
 }
 
 type cloInfo struct {
@@ -813,6 +815,9 @@ func (e *Enc) instr(fr *frame, st *State, ins ssa.Instruction) {
 		p := fr.val(st, x.Addr)
 		v := fr.val(st, x.Val)
 		e.checkNonNilPtr(st, p, x.Pos(), "store")
+		if p.addr != nil && len(p.addr.path) == 0 && e.v.sliceNormKeys[p.addr.key] && !e.q.isOff0(v.term) {
+			e.oblige(st, "fieldinv", "slice-offset-0 "+p.addr.key, "(= (s_off "+v.term+") 0)", x.Pos())
+		}
 		if p.addr != nil && len(p.addr.path) == 0 {
 			if fi := e.v.fieldInvs[p.addr.key]; fi != nil {
 				e.pendingFI = append(e.pendingFI, pendingStore{addr: p.addr, fi: fi})
@@ -960,7 +965,7 @@ func (e *Enc) indexAddr(fr *frame, st *State, x *ssa.IndexAddr) Value {
 	case *types.Slice:
 		e.oblige(st, "nopanic", "index", "(and (<= 0 "+idx.term+") (< "+idx.term+" (s_len "+base.term+")))", x.Pos())
 		et := bt.Elem()
-		return Value{term: "0", typ: x.Type(), addr: &Addr{key: e.elemKey(et), idx: []string{"(s_arr " + base.term + ")", "(+ (s_off " + base.term + ") " + idx.term + ")"}, typ: et}}
+		return Value{term: "0", typ: x.Type(), addr: &Addr{key: e.elemKey(et), idx: []string{"(s_arr " + base.term + ")", e.q.idxOf(base.term, idx.term)}, typ: et}}
 	case *types.Pointer: // pointer to array
 		at := bt.Elem().Underlying().(*types.Array)
 		e.oblige(st, "nopanic", "index", fmt.Sprintf("(and (<= 0 %s) (< %s %d))", idx.term, idx.term, at.Len()), x.Pos())
@@ -989,7 +994,7 @@ func (e *Enc) index(fr *frame, st *State, x *ssa.Index) Value {
 	case *types.Slice:
 		e.oblige(st, "nopanic", "index", "(and (<= 0 "+idx.term+") (< "+idx.term+" (s_len "+base.term+")))", x.Pos())
 		ek := e.elemKey(bt.Elem())
-		return Value{term: sel(sel(st.get(ek), "(s_arr "+base.term+")"), "(+ (s_off "+base.term+") "+idx.term+")"), typ: x.Type()}
+		return Value{term: sel(sel(st.get(ek), "(s_arr "+base.term+")"), e.q.idxOf(base.term, idx.term)), typ: x.Type()}
 	}
 	panic("index on " + x.X.Type().String())
 }
@@ -1236,6 +1241,11 @@ func (e *Enc) unop(fr *frame, st *State, x *ssa.UnOp) Value {
 			if t, fi := e.fieldInvTerm(st, a.addr.key, v); fi != nil {
 				st.assume(t)
 			}
+		}
+		if a.addr != nil && len(a.addr.path) == 0 && e.v.sliceNormKeys[a.addr.key] {
+			// invariant of this field (checked at every store): offset 0
+			st.assume("(= (s_off " + v.term + ") 0)")
+			e.q.markOff0(v.term)
 		}
 		if g, ok := x.X.(*ssa.Global); ok && e.v.globalInitNonNil(g) {
 			switch e.u.sortOf(v.typ) {
